@@ -66,6 +66,14 @@ def tasks(tier):
     # the operation itself raises the library's own exceptions (a nested policy ran out / a nested
     # breaker is open) and cancellation-type exceptions
     cfgs.append(dict(base, M=3, max_unknown=None, alphabet=ALPHA + ["nested", "coe", "kbd"]))
+    # no strategy at all (strategy=None, strategies={}): every entry point stops at the first failure
+    cfgs.append(dict(base, M=3, max_unknown=None, strat={"default": None, "per": {}, "per_empty": True}))
+    # nobody observes the run
+    cfgs.append(dict(base, M=3, max_unknown=None, metric=False, log=False, attempt_hooks=None,
+                     abort=False, operation=None))
+    # attempt_timeout_s longer than the deadline: an attempt that outlives the deadline but not
+    # its own timeout is treated alike by the sync and the async runners
+    cfgs.append(dict(base, M=3, attempt_timeout=6, durs=[0, 4, 1], max_unknown=None, deadline=3))
     # callbacks that are falsy callable objects (every entry point must honour them alike)
     cfgs.append(dict(base, M=3, max_unknown=None, callable_kind="falsy"))
     # async entry points are handed callbacks that return awaitable objects (not coroutines)
